@@ -386,7 +386,7 @@ impl Monitor for C05 {
              prototypes declared/redeclared and defined in shuffled orders, interrupt handlers, unused functions, warning- and error-producing \
              lines; plus corpus programs) is compiled once, then again on {} freshly spawned threads (fresh SipHash keys each), after 1 and 5 \
              unrelated compilations in the same thread, and (every 4th case) in {} fresh processes whose stdout diagnostics are captured; output \
-             bytes, variable and function order and diagnostics must be identical. non-trivial = every case",
+             bytes, variable and function order and diagnostics must be identical. Each case is also compiled with a logger installed at trace level; the working directory must be unchanged by every compilation; kind files: headers in a sub-directory (one failing) and 2-3 included assembler files whose order is part of the fingerprint. non-trivial = every case",
             NTHREADS, NPROCS
         )
     }
